@@ -34,7 +34,9 @@ class FakePath:
         return f"FakePath({self.key()})"
 
     def with_suffix(self, sfx):
-        return FakePath(self.fs, self.parts[:-1] + (self.parts[-1] + sfx,))
+        name = self.parts[-1]
+        stem = name[:name.rfind(".")] if "." in name[1:] else name      # pathlib: the last suffix is replaced
+        return FakePath(self.fs, self.parts[:-1] + (stem + sfx,))
 
     def with_name(self, name):
         return FakePath(self.fs, self.parts[:-1] + (name,))
